@@ -20,12 +20,19 @@ The model is structured BY PASS, mirroring the code.  Quirks that are kept:
   (`EK.crash`);
 * `int(field.location.size.type.integer.minimum_value)` raises `ValueError` on
   `"-infinity"`/`"infinity"` (`EK.crash`).
-The 64-bit expression-range gate (`_check_bounds_on_runtime_integer_expressions`) belongs to
-C05 and is not part of this model (the harness filters its error kind).
+The 64-bit expression-range gate (`_check_bounds_on_runtime_integer_expressions`) is C05's
+`Emboss.Bounds.gate`, applied to the annotated top-level expressions of each module.
 
-Only imports: the SExpr evaluator and the regenerated tables.
+The passes report their errors IN THE ORDER of the Python: every pass is a sequence of IR
+traversals (`traverse_ir.fast_traverse_ir_top_down`), each of which visits all modules, and in
+a type definition first the definition itself / its structure or enumeration / its attributes,
+then its subtypes, then its runtime parameters (`Forest.walk`).  The per-entity regrouping
+(`attrsOfType`, `verifyOfType`, `constraintsOfType`) is kept for the lemmas.
+
+Only imports: the SExpr evaluator, C05's bounds model and the regenerated tables.
 -/
 import Emboss.Model.SExpr
+import Emboss.Model.Bounds
 import Emboss.Generated.Reserved
 import Emboss.Generated.AttrTable
 namespace Emboss.Constraints
@@ -144,6 +151,10 @@ structure Module where
   attrs : List Attr
   types : Forest
   staticRefs : List Bool    -- per `constant_reference` expression: `is_constant_type(type)`
+  gated : List (Bool × Emboss.Bounds.ATree) := []
+                            -- the outermost expressions the 64-bit gate is called on (not in
+                            -- enum values, not in `[static_requirements]`), annotated, in order;
+                            -- the flag: the expression is SYNTHETIC (`$size_in_bytes` & co.)
   deriving Repr
 
 abbrev Program := List Module
@@ -165,6 +176,7 @@ inductive EK where
   | enumDynamic | enumWidth | reqNotMet (ty : String)
   | reservedField | reservedEnum | reservedType
   | staticRef | enumValueRange | paramBounds
+  | gate (e : Emboss.Bounds.GateErr)
   | crash
   deriving DecidableEq, Repr
 
@@ -302,6 +314,26 @@ def Module.ctxs (m : Module) : List (Option AVal × TypeInfo) :=
 def allTypes (p : Program) : List (Option AVal × TypeInfo) :=
   p.flatMap Module.ctxs
 
+/-- What a traversal does at one type definition (given the `$default byte_order` in effect). -/
+abbrev Visit := Option AVal → TypeInfo → List EK
+
+def noVisit : Visit := fun _ _ => []
+
+/-- One `fast_traverse_ir_top_down` over the type definitions of a module, in its order: at a
+definition first `pre` (the definition itself and its singular members `structure` /
+`enumeration`, its `attribute`s), then the `subtype`s, then `post` (`runtime_parameter` comes
+after `subtype`), then the following definitions.  `$default`s are threaded as in
+`Forest.ctxs`. -/
+def Forest.walk (pre post : Visit) (d : Option AVal) : Forest → List EK
+  | .nil => []
+  | .node t ch sib =>
+    let d' := gatherDefault t.attrs d
+    pre d' t ++ ch.walk pre post d' ++ post d' t ++ sib.walk pre post d
+
+/-- One traversal of the whole IR (all modules, in order). -/
+def trav (p : Program) (pre post : Visit) : List EK :=
+  p.flatMap (fun m => m.types.walk pre post (gatherDefault m.attrs none))
+
 def TypeInfo.fields (t : TypeInfo) : List Field :=
   match t.kind with
   | .structure fs => fs
@@ -371,14 +403,13 @@ def checkAttrType (a : Attr) : List EK :=
   | some .backEnds =>
     (match a.val with
      | .str s => if validBackEnds s then [] else [.attrBackEnds]
-     | _ => [.attrType a.name])              -- see note below
+     | _ => [.attrType a.name])              -- `attribute_util.STRING` runs first
   | some .unknownChecker => [.crash]
 
-/- Note on `checkAttrType`: for a value of the wrong *kind* the Python validators
-`_is_constant_boolean` (non-boolean expression) and `_valid_back_ends` (non-string) currently
-raise AttributeError (open findings of C14, patch in fixes/); the model returns the type error
-the validators are meant to return — the behaviour with the patch applied.  The harness routes
-the two crashes to the known findings and does not compare the model on them. -/
+/- Note on `checkAttrType`: for a value of the wrong *kind* the validators `_is_constant_boolean`
+(non-boolean expression) and `_valid_back_ends` (non-string) return the type error (since the
+`fix:` commits 74b10f8 / d07ebca; before them they raised AttributeError — the pinned inputs are
+in corpus/C14/fixed-*.json and are compared like every other case). -/
 
 /-- `_check_attributes` with `back_end=None`: qualified attributes are skipped; `seen` is
 `already_seen_attributes`. -/
@@ -413,9 +444,19 @@ def attrsOfType (t : TypeInfo) : List EK :=
   ++ t.fields.flatMap (fun f => checkAttrList (fieldSpecs f) [] f.attrs)
   ++ t.values.flatMap (fun v => checkAttrList AttrTable.enumValueAttrs [] v.attrs)
 
-def passAttrs (p : Program) : List EK :=
+/-- Per-entity regrouping of `passAttrs` (lemmas). -/
+def attrsByEntity (p : Program) : List EK :=
   p.flatMap (fun m => checkAttrList AttrTable.moduleAttrs [] m.attrs)
   ++ (allTypes p).flatMap (fun c => attrsOfType c.2)
+
+/-- `check_attributes_in_ir`: four traversals (`Module`, `TypeDefinition`, `Field`,
+`EnumValue`). -/
+def passAttrs (p : Program) : List EK :=
+  p.flatMap (fun m => checkAttrList AttrTable.moduleAttrs [] m.attrs)
+  ++ trav p (fun _ t => checkAttrList (typeSpecs t) [] t.attrs) noVisit
+  ++ trav p (fun _ t => t.fields.flatMap (fun f => checkAttrList (fieldSpecs f) [] f.attrs)) noVisit
+  ++ trav p (fun _ t => t.values.flatMap (fun v => checkAttrList AttrTable.enumValueAttrs [] v.attrs))
+       noVisit
 
 /-! ## Pass 2b: `_verify_attributes_on_ir` (after `_add_missing_attributes_on_ir`) -/
 
@@ -429,14 +470,17 @@ def expectedBackEnds (m : Module) : List String :=
 def backEndErrs (exp : List String) (attrs : List Attr) : List EK :=
   attrs.flatMap (fun a => if a.backEnd ∈ exp then [] else [.backEndMismatch a.backEnd])
 
+/-- Traversal `[Attribute]` inside one type definition: the attributes of its fields / enum
+values (`structure`, `enumeration` are singular members, visited first), then its own. -/
 def backEndsOfType (exp : List String) (t : TypeInfo) : List EK :=
-  backEndErrs exp t.attrs
-  ++ t.fields.flatMap (fun f => backEndErrs exp f.attrs)
+  t.fields.flatMap (fun f => backEndErrs exp f.attrs)
   ++ t.values.flatMap (fun v => backEndErrs exp v.attrs)
+  ++ backEndErrs exp t.attrs
 
 def verifyBackEnds (m : Module) : List EK :=
   let exp := expectedBackEnds m
-  backEndErrs exp m.attrs ++ (m.ctxs.flatMap (fun c => backEndsOfType exp c.2))
+  backEndErrs exp m.attrs
+  ++ m.types.walk (fun _ t => backEndsOfType exp t) noVisit (gatherDefault m.attrs none)
 
 /-- `_verify_size_attributes_on_structure`. -/
 def verifySize (t : TypeInfo) : List EK :=
@@ -523,8 +567,26 @@ def verifyOfType (p : Program) (c : Option AVal × TypeInfo) : List EK :=
   verifySize c.2 ++ verifyEnumWidth c.2 ++ verifyUnit c.2
   ++ c.2.fields.flatMap (fun f => verifyByteOrder p c.1 c.2 f ++ verifyRequires p f)
 
-def passVerify (p : Program) : List EK :=
+/-- Per-entity regrouping of `passVerify` (lemmas). -/
+def verifyByEntity (p : Program) : List EK :=
   p.flatMap verifyBackEnds ++ (allTypes p).flatMap (verifyOfType p)
+
+/-- `_verify_attributes_on_ir`: five traversals (`Attribute`, `Structure`, `Enum`, `External`,
+`Field`). -/
+def passVerify (p : Program) : List EK :=
+  p.flatMap verifyBackEnds
+  ++ trav p (fun _ t => verifySize t) noVisit
+  ++ trav p (fun _ t => verifyEnumWidth t) noVisit
+  ++ trav p (fun _ t => verifyUnit t) noVisit
+  ++ trav p (fun d t => t.fields.flatMap (fun f => verifyByteOrder p d t f ++ verifyRequires p f))
+       noVisit
+
+/-- The byte order every physical field carries after `_add_missing_attributes_on_ir`
+(type id, field name, value), in traversal order. -/
+def fieldByteOrders (p : Program) : List (Nat × String × Option AVal) :=
+  (allTypes p).flatMap (fun c =>
+    c.2.fields.flatMap (fun f =>
+      if f.isVirtual then [] else [(c.2.id, f.name, effByteOrder p c.1 c.2 f)]))
 
 /-! ## Pass 3: `constraints.check_constraints` -/
 
@@ -555,6 +617,41 @@ def arrayChecks (p : Program) (t : TypeInfo) (outer : Bool) : Ty → List EK
            | some sz => if sz % (effUnit t).bits ≠ 0 then [.elemNotBytes] else [])
         | .array _ _ => [])
     ++ arrayChecks p t false base
+
+/-- `_check_that_array_base_types_are_fixed_size` over the array levels of a type (traversal
+`[ArrayType]`; only the innermost level acts). -/
+def elemFixed (p : Program) : Ty → List EK
+  | .atomic _ _ => []
+  | .array base _ =>
+    (match base with
+     | .atomic r s => if (leafFixedSize p (r, s)).isNone then [.elemNotFixed] else []
+     | .array _ _ => [])
+    ++ elemFixed p base
+
+/-- `_check_that_array_base_types_in_structs_are_multiples_of_bytes` (traversal
+`[Structure, ArrayType]`). -/
+def elemBytes (p : Program) (t : TypeInfo) : Ty → List EK
+  | .atomic _ _ => []
+  | .array base _ =>
+    (match base with
+     | .atomic r s =>
+       (match leafFixedSize p (r, s) with
+        | none => []
+        | some sz => if sz % (effUnit t).bits ≠ 0 then [.elemNotBytes] else [])
+     | .array _ _ => [])
+    ++ elemBytes p t base
+
+/-- `_check_that_inner_array_dimensions_are_constant` (traversal `[ArrayType, ArrayType]`:
+every array level below the outermost). -/
+def innerDims (outer : Bool) : Ty → List EK
+  | .atomic _ _ => []
+  | .array base len =>
+    (if outer then []
+     else match len with
+       | .auto => [.innerAuto]
+       | .dyn => [.innerDyn]
+       | .const _ => [])
+    ++ innerDims false base
 
 /-- `_check_size_of_bits`. -/
 def sizeOfBits (t : TypeInfo) : List EK :=
@@ -670,14 +767,63 @@ def constraintsOfType (p : Program) (c : Option AVal × TypeInfo) : List EK :=
   ++ enumValues t
   ++ t.params.flatMap (paramReq p)
 
-def passConstraints (p : Program) : List EK :=
-  (allTypes p).flatMap (constraintsOfType p)
-  ++ p.flatMap (fun m => m.staticRefs.flatMap (fun b => if b then [] else [.staticRef]))
+/-- `_check_bounds_on_runtime_integer_expressions` on the gated expressions of a module
+(`none` = `int("infinity")` raises inside the gate).  `glue.process_ir` splits the errors of a
+pass (`error.split_errors`): those located in synthetic IR (`syn = true`) are deferred and only
+shown if no pass reports a user-visible error. -/
+def gateErrs (syn : Bool) (m : Module) : List EK :=
+  m.gated.flatMap (fun g =>
+    if g.1 = syn then
+      match Emboss.Bounds.gate g.2 with
+      | none => [.crash]
+      | some es => es.map .gate
+    else [])
 
-def passEarly (p : Program) : List EK :=
+def staticRefErrs (m : Module) : List EK :=
+  m.staticRefs.flatMap (fun b => if b then [] else [.staticRef])
+
+/-- Per-entity regrouping of `passConstraints` (lemmas). -/
+def constraintsByEntity (p : Program) : List EK :=
+  (allTypes p).flatMap (constraintsOfType p)
+  ++ p.flatMap staticRefErrs
+  ++ p.flatMap (gateErrs false)
+
+/-- Apply `g` to the physical fields of `t`. -/
+def onPhys (t : TypeInfo) (g : Field → List EK) : List EK :=
+  t.fields.flatMap (fun f => if f.isVirtual then [] else g f)
+
+/-- `check_constraints`: thirteen traversals, in this order. -/
+def passConstraints (p : Program) : List EK :=
+  trav p (fun _ t => onPhys t (allowedInBits p t)) noVisit                  -- [Structure, Type]
+  ++ trav p (fun _ t => onPhys t (fun f => elemFixed p f.ty)) noVisit        -- [ArrayType]
+  ++ trav p (fun _ t => onPhys t (fun f => elemBytes p t f.ty)) noVisit      -- [Structure, ArrayType]
+  ++ trav p (fun _ t => onPhys t (fun f => innerDims true f.ty)) noVisit     -- [ArrayType, ArrayType]
+  ++ trav p (fun _ t => sizeOfBits t) noVisit                               -- [Structure]
+  ++ trav p (fun _ t => onPhys t (typeReq p t)) noVisit                     -- [Structure, Type]
+  ++ trav p (fun _ t => t.fields.flatMap
+       (fun f => if isReserved f.name then [.reservedField] else [])) noVisit -- [Field]
+  ++ trav p (fun _ t => t.values.flatMap
+       (fun v => if isReserved v.name then [.reservedEnum] else [])) noVisit  -- [EnumValue]
+  ++ trav p (fun _ t => if isReserved t.name then [.reservedType] else []) noVisit -- [TypeDefinition]
+  ++ p.flatMap staticRefErrs                                                -- [Expression]
+  ++ trav p (fun _ t => enumValues t) noVisit                               -- [Enum]
+  ++ p.flatMap (gateErrs false)                                             -- [Expression], gate
+  ++ trav p noVisit (fun _ t => t.params.flatMap (paramReq p))              -- [RuntimeParameter]
+
+/-- Per-entity regrouping of `passEarly` (lemmas). -/
+def earlyByEntity (p : Program) : List EK :=
   (allTypes p).flatMap (fun c => c.2.params.flatMap earlyParam)
 
-/-- The four passes in `process_ir` order; a pass that reports errors ends the pipeline. -/
+/-- `check_early_constraints`: one traversal `[RuntimeParameter]`. -/
+def passEarly (p : Program) : List EK :=
+  trav p noVisit (fun _ t => t.params.flatMap earlyParam)
+
+/-- The deferred (synthetic-location) errors of `check_constraints`. -/
+def passDeferred (p : Program) : List EK :=
+  p.flatMap (gateErrs true)
+
+/-- The four passes in `process_ir` order; a pass that reports (user-visible) errors ends the
+pipeline; the deferred ones are reported at the end. -/
 def check (p : Program) : List EK :=
   let e := passEarly p
   if e ≠ [] then e else
@@ -685,6 +831,8 @@ def check (p : Program) : List EK :=
   if a ≠ [] then a else
   let v := passVerify p
   if v ≠ [] then v else
-  passConstraints p
+  let c := passConstraints p
+  if c ≠ [] then c else
+  passDeferred p
 
 end Emboss.Constraints
